@@ -55,7 +55,8 @@ def world_py(w):
     """parsed TLC value of W -> plain dict for the executor / JSON"""
     return {'schema': sorted([list(x) for x in w['schema']]), 'roots': sorted(w['roots']), 'shape': dict(w['shape']),
             'certs': {k: dict(v) for k, v in dict(w['certs']).items()}, 'pkts': {k: dict(v) for k, v in dict(w['pkts']).items()},
-            'kt': w['kt'], 'sch': w['sch']}
+            'kt': w['kt'], 'sch': w['sch'], 'twin': dict(w['twin']) if w.get('twin') else {},
+            'covers': {k: sorted(v) for k, v in dict(w['covers']).items()}}
 
 
 def report(ctx, devs, bad, reported, what, robj):
@@ -149,10 +150,21 @@ def walk(ctx, g, w, init, labels, kt, pool, cache, tag, learn=None):
     return len(done)
 
 
-def stage_b(ctx, name, cs, pool, cache, kts, max_paths=None, learn=None):
-    cfgp = os.path.join(tlc.BUILD, 'TrustChain_g_%s.cfg' % name)
-    tlc.write_cfg(cfgp, constants=cs, invariants=['TypeOK'])
-    g = fast_dump('TrustChain', cfgp, workers=4, tag='c14g')
+def stage_b_many(ctx, specs, pool, cache, learn=None):
+    """specs: [(name, constants, key types, max_paths)]; the state graphs are produced side by side, then walked one by one"""
+    from concurrent.futures import ThreadPoolExecutor
+
+    def dump(spec):
+        cfgp = os.path.join(tlc.BUILD, 'TrustChain_g_%s.cfg' % spec[0])
+        tlc.write_cfg(cfgp, constants=spec[1], invariants=['TypeOK'])
+        return fast_dump('TrustChain', cfgp, workers=2, tag='c14g-' + spec[0])
+    with ThreadPoolExecutor(max_workers=ctx.pick(4, 6)) as ex:
+        graphs = list(ex.map(dump, specs))
+    for (name, cs, kts, max_paths), g in zip(specs, graphs):
+        stage_b(ctx, name, g, pool, cache, kts, max_paths, learn)
+
+
+def stage_b(ctx, name, g, pool, cache, kts, max_paths=None, learn=None):
     ctx.add_tlc('TrustChain graph %s (%d edges)' % (name, g.n_edges), g.tlc)
     w = Walker(g, ENV, proj)
     paths = graph.edge_cover_paths(g, max_len=60, max_paths=max_paths, rng=ctx.rng)
@@ -186,8 +198,8 @@ PEER = STRICT + [['c1', 'c1'], ['c1', 'c2'], ['c1', 'c3'], ['c1', 'x'], ['c2', '
 
 
 def random_world(rng):
-    sch = rng.choice(['strict', 'strict', 'peer'])
-    rel = STRICT if sch == 'strict' else PEER
+    sch = rng.choice(['strict'] * 5 + ['peer'] * 3 + ['two', 'twin'])
+    rel = {'strict': STRICT, 'peer': PEER, 'two': STRICT + [['r1', 'oproot']], 'twin': STRICT + [['e1', 'root']]}[sch]
     signer_shapes = {}
     for a, b in rel:
         signer_shapes.setdefault(a, []).append(b)
@@ -201,10 +213,13 @@ def random_world(rng):
     certs['R4'] = {'key': 'kR4', 'kl': 'R4', 'sig': 'kR4', 'serv': 'absent'}
     shape['R5'] = 'root'
     certs['R5'] = {'key': 'kR5', 'kl': 'R5', 'sig': rng.choice(['forged', 'kR1']), 'serv': 'absent'}
+    if sch == 'two':
+        shape['R6'] = 'oproot'
+        certs['R6'] = {'key': 'kR6', 'kl': 'R6', 'sig': 'kR6', 'serv': 'absent'}
     ncert = rng.randint(2, 8)
     cn = ['C%d' % i for i in range(1, ncert + 1)]
     for n in cn:
-        shape[n] = rng.choice(['c1', 'c1', 'c2', 'c3', 'x']) if sch == 'strict' else rng.choice(['c1', 'c1', 'c1', 'c2', 'x'])
+        shape[n] = rng.choice(['c1', 'c1', 'c2', 'c3', 'x']) if sch != 'peer' else rng.choice(['c1', 'c1', 'c1', 'c2', 'x'])
     shape['Z'] = rng.choice(['c1', 'c2'])       # a certificate name that is referred to but does not exist
     by_shape = {}
     for n in roots + cn:
@@ -231,6 +246,16 @@ def random_world(rng):
             certs[n]['sig'] = 'k' + rng.choice(roots + cn)
         elif y < 0.16:
             certs[n]['kl'] = 'none'
+    # a second certificate of the key name of C1 / C2 (other issuer component): forged, or not retrievable
+    twin = {}
+    for base in ('C1', 'C2'):
+        if rng.random() < 0.4:
+            t = base + 'b'
+            twin[t] = base
+            shape[t] = shape[base]
+            certs[t] = dict(certs[base], serv=rng.choice(['yes', 'absent', 'nack']))
+            if certs[t]['serv'] == 'yes':
+                certs[t]['sig'] = 'forged'
     for i in range(1, 11):
         p = 'P%d' % i
         shape[p] = rng.choice(['d1', 'd2', 'd2', 'd3', 'd4'])
@@ -243,7 +268,12 @@ def random_world(rng):
             pkts[p]['sig'] = 'k' + rng.choice(roots + cn)
         elif y < 0.18:
             pkts[p] = {'kl': 'none', 'sig': rng.choice(['digest', pkts[p]['sig']])}
-    return {'schema': rel, 'roots': ['root'], 'shape': shape, 'certs': certs, 'pkts': pkts, 'kt': 'ec', 'sch': sch}
+        elif pkts[p]['kl'] + 'b' in twin and y < 0.5:
+            pkts[p]['kl'] += 'b'                  # signed by the same key, names the other certificate of that key name
+    rts = {'two': ['root', 'oproot'], 'twin': ['root', 'root2']}.get(sch, ['root'])
+    covers = {'root': ['root', 'root2'] if sch == 'twin' else ['root'], 'oproot': ['oproot']}
+    return {'schema': rel, 'roots': rts, 'covers': covers, 'twin': twin, 'shape': shape, 'certs': certs, 'pkts': pkts,
+            'kt': 'ec', 'sch': sch}
 
 
 def record(world, rng, pool, kt):
@@ -254,7 +284,7 @@ def record(world, rng, pool, kt):
     ev = []
     try:
         for v in INSTS4:
-            a = rng.choice(['R1', 'R1', 'R2', 'R3', 'R4', 'R5'])
+            a = rng.choice(['R1', 'R1', 'R2', 'R3', 'R4', 'R5'] + (['R6'] if 'R6' in world['certs'] else []))
             run.apply('NewValidator', [v, a])
             ev.append({'a': 'NewValidator', 'v': v, 'x': a})
             ev[-1]['post'] = post_of(run)
@@ -367,13 +397,15 @@ def stage_a(ctx):
     from concurrent.futures import ThreadPoolExecutor
     workers = ctx.pick(4, 8)
     if ctx.quick:
-        big = [('depth<=3, 2 validations', consts(INSTS2, 2, 'W3'), INVS, [], True, True),
-               ('orders, 3 validations', consts(INSTS2, 3, 'WOrd', anchors='MCAnchorsGood'), INVS, [], False, True)]
+        big = [('depth<=3, 2 validations', consts(INSTS2, 2, 'W3'), INVS, [], False, True),
+               ('orders, 2 validations (action coverage)', consts(INSTS2, 2, 'WOrd'), INVS, [], True, True)]
     else:
         big = [('depth<=4, 3 validations', consts(INSTS2, 3, 'W4'), INVS, [], True, True)]
     # a certificate that could not be fetched becomes retrievable between validations: no trace of the earlier failure
     big.append(('healing fetch faults, %d validations' % ctx.pick(2, 3), consts(INSTS2, ctx.pick(2, 3), 'WHeal', anchors='MCAnchorsGood', maxheal=1),
                 INVS, [], True, True))
+    # schemas with two roots of trust: an anchor matching only one of them is refused, one matching both is accepted
+    big.append(('two roots of trust', consts(INSTS2, 1, 'W2R', anchors='MCAnchors2'), INVS, [], False, False))
     # termination (liveness) on a smaller configuration
     big.append(('liveness depth<=%d, 2 validations' % ctx.pick(2, 3), consts(INSTS2, 2, ctx.pick('W2', 'W3'), anchors='MCAnchorsGood'),
                 ['TypeOK'], ['Terminates'], False, True))
@@ -401,10 +433,12 @@ def stage_a(ctx):
                 if r.ok and r.coverage.get(a, (0, 0))[1] == 0:
                     raise tlc.MachineryError('vacuous: action %s never taken' % a)
     small = []
-    for wname in ('W_AcceptDeep', 'W_CacheHit', 'W_Refused', 'W_RejectOtherAnchor', 'W_TwoInFlight', 'W_HealedAccept'):
+    for wname in ('W_AcceptDeep', 'W_CacheHit', 'W_Refused', 'W_RejectOtherAnchor', 'W_TwoInFlight', 'W_HealedAccept',
+                  'W_TwoRootsAccept', 'W_TwoRootsRefuse'):
         wp = os.path.join(tlc.BUILD, 'TrustChain_w_%s.cfg' % wname)
-        tlc.write_cfg(wp, constants=consts(INSTS2, 2, 'W3') if wname != 'W_HealedAccept' else
-                      consts(INSTS2, 2, 'WHeal', anchors='MCAnchorsGood', maxheal=1), invariants=[wname])
+        tlc.write_cfg(wp, constants=consts(INSTS2, 2, 'WHeal', anchors='MCAnchorsGood', maxheal=1) if wname == 'W_HealedAccept' else
+                      consts(INSTS2, 1, 'W2R', anchors='MCAnchors2') if wname.startswith('W_TwoRoots') else consts(INSTS2, 2, 'W3'),
+                      invariants=[wname])
         small.append(('witness', wname, wp))
     for d, worlds in (('SharedCache', 'WClean'), ('LoopRefetch', 'WLoop'), ('Ed25519Unsupported', 'WEd')):
         dp = os.path.join(tlc.BUILD, 'TrustChain_d_%s.cfg' % d)
@@ -445,10 +479,10 @@ def run(ctx):
     forced = ([], ALL_DEVS)
     if 'B' in ctx.stages or 'C' in ctx.stages:
         learn = {'has': set(), 'hasnot': set()}
-        stage_b(ctx, 'learn-cache', consts(INSTS2, 2, 'WClean', ALL_DEVS, anchors='MCAnchorsGood'), pool, cache, ['ec'],
-                max_paths=ctx.pick(80, 400), learn=learn)
-        stage_b(ctx, 'learn-loop', consts(['v1'], 1, 'WLoop', ALL_DEVS, anchors='MCAnchorsGood'), pool, cache, ['ec'], learn=learn)
-        stage_b(ctx, 'learn-ed', consts(['v1'], 1, 'WEd', ALL_DEVS, anchors='MCAnchorsGood'), pool, cache, ['ed'], learn=learn)
+        stage_b_many(ctx, [('learn-cache', consts(INSTS2, 2, 'WClean', ALL_DEVS, anchors='MCAnchorsGood'), ['ec'], ctx.pick(80, 400)),
+                           ('learn-loop', consts(['v1'], 1, 'WLoop', ALL_DEVS, anchors='MCAnchorsGood'), ['ec'], None),
+                           ('learn-ed', consts(['v1'], 1, 'WEd', ALL_DEVS, anchors='MCAnchorsGood'), ['ed'], None)],
+                     pool, cache, learn)
         if learn['has'] & learn['hasnot']:
             ctx.violation('C14/lvs_validator/inconsistent-deviation', 'the code shows and does not show %s' % sorted(
                 learn['has'] & learn['hasnot']), {'learn': {k: sorted(v) for k, v in learn.items()}})
@@ -457,17 +491,18 @@ def run(ctx):
     if 'B' in ctx.stages:
         has, unk = forced
         kts = ['ec'] * 9 + ['rsa'] if ctx.quick else ['ec'] * 5 + ['rsa']
-        # every world (depth, deviation, link), one validation at a time, both instances, good and bad anchors
-        stage_b(ctx, 'main', consts(INSTS2, ctx.pick(1, 2), ctx.pick('W3', 'W4'), unk, has), pool, cache, kts,
-                max_paths=ctx.pick(200, 8000))
-        # orders / interleavings of up to 3 validations by two instances on a few worlds
-        stage_b(ctx, 'orders', consts(INSTS2, ctx.pick(2, 3), 'WOrd', unk, has, anchors='MCAnchorsGood'), pool, cache, ['ec'],
-                max_paths=ctx.pick(100, 5000))
-        # fetch fault, Heal, then the same / another packet of the chain again, on the same and on the other instance
-        stage_b(ctx, 'heal', consts(INSTS2, ctx.pick(2, 3), 'WHeal', unk, has, anchors='MCAnchorsGood', maxheal=1), pool, cache, ['ec'],
-                max_paths=ctx.pick(120, 4000))
-        stage_b(ctx, 'ed25519', consts(INSTS2, 2, 'WEd', unk, has, anchors='MCAnchorsGood'), pool, cache, ['ed'],
-                max_paths=ctx.pick(60, 400))
+        stage_b_many(ctx, [
+            # every world (depth, deviation, link), one validation at a time, both instances, good and bad anchors
+            ('main', consts(INSTS2, ctx.pick(1, 2), ctx.pick('W3', 'W4'), unk, has), kts, ctx.pick(200, 8000)),
+            # orders / interleavings of up to 3 validations by two instances on a few worlds
+            ('orders', consts(INSTS2, ctx.pick(2, 3), 'WOrd', unk, has, anchors='MCAnchorsGood'), ['ec'], ctx.pick(100, 5000)),
+            # fetch fault, Heal, then the same / another packet of the chain again, on the same and on the other instance
+            ('heal', consts(INSTS2, ctx.pick(2, 3), 'WHeal', unk, has, anchors='MCAnchorsGood', maxheal=1), ['ec'], ctx.pick(120, 4000)),
+            # two certificates of one key name (one good, one forged / not retrievable), packets naming each, both orders
+            ('twincert', consts(['v1'], 2, 'WTwin', unk, has, anchors='MCAnchorsGood'), ['ec'], None),
+            # schemas with two roots of trust: anchors matching one root only / both
+            ('roots', consts(INSTS2, 1, 'W2R', unk, has, anchors='MCAnchors2'), ['ec'], ctx.pick(40, 400)),
+            ('ed25519', consts(INSTS2, 2, 'WEd', unk, has, anchors='MCAnchorsGood'), ['ed'], ctx.pick(30, 400))], pool, cache)
         ctx.note('stage B wall %.0fs (incl. learning)' % (time.time() - t1))
     t2 = time.time()
     if 'C' in ctx.stages:
